@@ -584,7 +584,7 @@ def verify_strat_allocate(ex, contract, timeout_ms=30000):
                 ob("named-child:single-allocate-of-the-amount", Implies(Not(nochild), And(len(calls) == 1, (calls[0][1].term == named_child(calls[0][3], self, child.val).term) if calls else False, value_same(calls[0][2][0], amount) if calls else False)), ("C06", "C02"))
             # to self: the parent is debited and self credited once; a flow for self, never a flow for a parent strategy
             ob("self:credited-as-flow", Implies(nochild, value_same(F.get(self, "_net_flows"), E.get(self, "_net_flows") + z3.If(isroot, 0, 1) * amount) if False else value_same(F.get(self, "_net_flows"), ite(isroot, E.get(self, "_net_flows"), E.get(self, "_net_flows") + amount))), ("C02", "C03", "C07"))
-            ob("parent:debited-once-not-a-flow", Implies(And(nochild, Not(isroot)), And(value_same(F.get(parent, "_capital"), E.get(parent, "_capital") - amount), value_same(F.get(parent, "_net_flows"), E.get(parent, "_net_flows")), value_same(F.get(parent, "_last_fee"), E.get(parent, "_last_fee")))), ("C02", "C07"))
+            ob("parent:debited-once-not-a-flow", Implies(And(nochild, Not(isroot)), And(value_same(F.get(parent, "_capital"), E.get(parent, "_capital") - amount), value_same(F.get(parent, "_net_flows"), E.get(parent, "_net_flows")), value_same(F.get(parent, "_last_fee"), E.get(parent, "_last_fee")))), ("C02", "C07", "C06"))
             upd = update if not isinstance(update, bool) else z3.BoolVal(update)
             ob("stale-iff-update", Implies(nochild, F.get(rt, "stale") == Or(E.get(rt, "stale"), upd)), ("C08",))
             x = z3.Const(dsl.fresh_name("xfr"), dsl.Ref)
